@@ -13,7 +13,7 @@ RULE = ("stats: BenchContext::compute_stats on generated sample sets loaded thro
         "info present for a random subset of the indices (distinct figures per index, some keys beyond the last sample, "
         "figures up to 2^63-1), each counter kind absent / constant / per-input (complete or truncated), counts up to "
         "2^64-1; out-of-domain stream: sample_size 0 with samples, u128 overflow of the duration total; periter: one real "
-        "sample through Bencher::with_inputs + input_counter; run: real Bencher runs (history-driven). Non-trivial = at least two samples and an Ok result "
+        "sample through Bencher::with_inputs + input_counter; run: real Bencher runs (history-driven); e2e: Divan::main over several thread counts under the virtual clock. Non-trivial = at least two samples and an Ok result "
         "(stats), at least two inputs (periter); distinct by input line.")
 ASSUMPTIONS = [
     "sort_unstable_by_key returns some permutation of the samples that is sorted by duration (theorems quantify over all of them)",
@@ -278,7 +278,17 @@ def gen_run(rng):
         spec = f"{subset(0.25)}/{subset(0.25)}/{subset(0.3)}/{subset(0.15)}"
     size = "t" if rng.random() < 0.2 else str(rng.choice([0, 1, 1, 2, 3, 8]))
     count = rng.choice([0, 1, 2, 3, 4, 5, 8, 20]) if size != "t" else rng.choice([1, 2, 3, 5])
+    if rng.random() < 0.12:      # lazy initialisation: only the first calls of the run allocate; mostly with tuning
+        size = "t" if rng.random() < 0.75 else size
+        count = rng.choice([1, 2, 3, 5]) if size == "t" else count
+        return f"{count} {size} 1 {spec} l {rng.randrange(1000)}"
     return f"{count} {size} {rng.choice([1, 1, 2, 3])} {spec} {rng.choice('0aofsgmmm')} {rng.randrange(1000)}"
+
+
+def gen_e2e(rng):
+    """<sample_count> <sample_size> <thread counts> <per-input counter 0|1> <seed>"""
+    th = rng.choice(["1", "2", "3", "1,2", "1,2", "2,1", "1,2,3", "3,1,2", "1,2,4", "2,2", "1,3"])
+    return f"{rng.choice([1, 2, 3, 4, 5, 7, 8])} {rng.choice([1, 1, 2, 3, 5])} {th} {rng.randrange(2)} {rng.randrange(1000)}"
 
 
 # --------------------------------------------------------------------------
@@ -336,11 +346,16 @@ def streams(tier, rng):
                  f"4 1 2 {kind}/-/bi/{kind} 1 5"]
     for mode in "0aofsgm":      # what the timed section does with the allocator (memory may be acquired outside it)
         runs += [f"3 2 1 -/-/-/- {mode} 7", f"4 1 2 -/-/i/- {mode} 5", f"6 3 1 -/-/-/- {mode} 11"]
+    runs += ["3 t 1 -/-/-/- l 0", "3 t 1 -/-/-/- l 2", "5 t 1 -/-/i/- l 1", "4 2 1 -/-/-/- l 1"]
     runs += ["8 2 1 -/-/-/- m 21", "8 1 1 b/-/b/- m 2", "2 t 1 -/-/-/- f 3", "2 t 1 -/-/-/- s 4"]
     runs += ["0 2 1 -/-/-/- 0 1", "2 0 1 -/-/b/- 1 3", "1 1 1 -/-/-/- 0 1", "3 2 1 -/-/b/- 1 7", "4 1 2 -/c/i/- 1 5",
              "5 3 1 -/i/-/- 0 9", "2 1 3 bc/y/bi/- 1 4", "0 2 1 i/-/i/- 0 1", "3 3 1 bi/ci/bci/- 1 11"]
     while len(runs) < (220 if quick else 3500):
         runs.append(gen_run(rng))
+
+    e2e = corpus_cases("C05-e2e") + ["5 2 1,2 0 3", "4 3 2 1 3", "7 1 1,2,3 1 9", "3 2 2,1 1 4", "1 5 1,3 0 8"]
+    while len(e2e) < (60 if quick else 800):
+        e2e.append(gen_e2e(rng))
 
     def nt(c, m):
         return m.startswith("ok ") and c.split(" ")[1].count(",") >= 1
@@ -362,12 +377,19 @@ def streams(tier, rng):
                describe="real Bencher runs (sample_count, explicit or tuned sample_size, threads 1..3, constant counters from the "
                         "options and from Bencher::counter (before and after input_counter) combined with input_counter of the same "
                         "and of other kinds, the timed section allocating+freeing / only allocating / only freeing / only "
-                        "shrinking / only growing memory (acquired by the generator) / nothing / a per-input mix, "
+                        "shrinking / only growing memory (acquired by the generator) / nothing / a per-input mix / only in "
+                        "the first calls of the run (lazy initialisation, with tuning rounds that are discarded), "
                         "allocating or not, AllocProfiler installed): the stored per-input counts must be one per recorded "
                         "sample with that sample's own value (the harness knows the inputs it generated), a kind whose last word "
                         "was a constant stores exactly that constant and is not per-input, the allocation records are exactly "
                         "the samples with a non-zero tally row each carrying its own rows, and compute_stats "
                         "on what the run recorded; model driven by the recording"),
+        Stream("e2e-thread-counts", "e2e", e2e, model_input=mi, nontrivial=lambda c, m: "," in c.split(" ")[2],
+               describe="the real benchmark binary hx-stats-e2e through Divan::main (run_bench_entry: one row per thread "
+                        "count) with explicit sample_count/sample_size, TSC timer on the virtual clock: every call advances "
+                        "the clock by a known amount, so the samples each thread count records are known; each printed row "
+                        "(fastest/slowest/median/mean as 4-digit truncations, samples, iters) must stand for the statistics "
+                        "of exactly that run's samples (model: compute_stats; Sb: the declarative order statistics)"),
         Stream("real-runs-release", "run_rel", runs[: len(runs) // 2], compare=compare_run, model_input=mi, release=True,
                nontrivial=lambda c, m: m.startswith("IN ") and len(m.split(" ")) > 2 and m.split(" ")[2].count(",") >= 1),
     ]
